@@ -577,7 +577,8 @@ def replay(prop, path):
 
 # ------------------------------------------------------------------ legal names
 NAME_PROGRAMS = {
-    # name -> (source with @B@ / @G@ where #[divan::bench] / #[divan::bench_group] go, written display paths)
+    # name -> (source with @B@ / @G@ where #[divan::bench] / #[divan::bench_group] go, written display paths
+    #          as the `--list` tree names them: benchmarks and generic instances, not argument cases)
     "control": ("mod m {\n    @B@\n    pub fn alpha() {}\n    @B@\n    pub fn beta() {}\n}\n", ["m::alpha", "m::beta"]),
     "case_fns": ("mod m {\n    @B@\n    pub fn foo() {}\n    @B@\n    pub fn FOO() {}\n}\n", ["m::FOO", "m::foo"]),
     "case_bencher_fns": ("mod m {\n    @B@\n    pub fn run(b: divan::Bencher) { b.bench(|| 1) }\n    @B@\n"
@@ -587,6 +588,11 @@ NAME_PROGRAMS = {
                 ["m::strasse", "m::stra\u00dfe"]),
     "case_groups": ("@G@\nmod grp {\n    @B@\n    pub fn a() {}\n}\n@G@\nmod GRP {\n    @B@\n    pub fn a() {}\n}\n",
                     ["GRP::a", "grp::a"]),
+    "fn_named_divan_args": ("#[divan::bench(args = [1, 2])]\npub fn divan(x: i32) { let _ = x; }\n", ["divan"]),
+    "fn_named_divan_bencher_args": ("#[divan::bench(args = [3])]\npub fn divan(b: divan::Bencher, x: i32) { b.bench(|| x) }\n", ["divan"]),
+    "case_generic_fns": ("mod m {\n    #[divan::bench(types = [u8, u16])]\n    pub fn conv<T: Default>() { let _ = T::default(); }\n"
+                         "    #[divan::bench(types = [u8])]\n    pub fn CONV<T: Default>() { let _ = T::default(); }\n}\n",
+                         ["m::CONV::u8", "m::conv::u16", "m::conv::u8"]),
     "underscore_case": ("mod m {\n    @B@\n    pub fn ab_c() {}\n    @B@\n    pub fn AB_C() {}\n    @B@\n    pub fn aB_c() {}\n}\n",
                         ["m::AB_C", "m::aB_c", "m::ab_c"]),
 }
@@ -610,6 +616,8 @@ def names_level(res, tier, seed):
     for name, (src, _w) in NAME_PROGRAMS.items():
         for variant, b, g in (("a", "#[divan::bench]", "#[divan::bench_group]"), ("w", "", "")):
             text = NAME_HEAD + src.replace("@B@", b).replace("@G@", g)
+            if variant == "w":      # attributes written with options are removed as whole lines
+                text = "\n".join(l for l in text.split("\n") if not l.strip().startswith("#[divan::bench("))
             mgen._write_if_changed(os.path.join(d, "src", "bin", f"n_{name}_{variant}.rs"), text)
             toml += ['[[bin]]', f'name = "n_{name}_{variant}"', f'path = "src/bin/n_{name}_{variant}.rs"', '']
     mgen._write_if_changed(os.path.join(d, "Cargo.toml"), "\n".join(toml))
